@@ -203,7 +203,7 @@ def run(ctx, prop):
     # (1) the same contracts at run time on the real code
     items = []
     for q in names:
-        items += runtime_inputs(q, quick)
+        items += runtime_inputs(q, quick, cap=1200 if quick else 6000)
     if items:
         ctx.run("D.runtime", items, chunk=200,
                 rule="deductive contracts evaluated at run time (RunCtx) on the real functions over small enumerated domains")
